@@ -232,6 +232,28 @@ theorem first_committer_wins (cat : Catalog) (ops : List Op) (u v : Nat) (tu tv 
     apply List.mem_iff_getElem?.2
     exact ⟨j, by rw [List.getElem?_take]; simp [hst, hj]⟩
 
+/-! ### verified checker for observed histories -/
+
+/-- history `h` explains the observation: these are the operations, and the MVCC model answers them as observed -/
+def Explains (cat : Catalog) (h : List Op) (obs : Observed) : Prop :=
+  h = obs.ops ∧ (run Defects.none cat h).2 = obs.outs
+
+/-- every answer of the history is the abstract machine's: each read = committed-at-begin ⊕ own writes, each commit
+    decided by first-committer-wins -/
+def SnapshotIsolated (cat : Catalog) (h : List Op) : Prop :=
+  (run Defects.none cat h).2 = (Spec.run cat h).2
+
+theorem checkSI_sound (cat : Catalog) (obs : Observed) (hc : checkSI cat obs = true) :
+    ∃ h, Explains cat h obs ∧ SnapshotIsolated cat h := by
+  refine ⟨obs.ops, ⟨rfl, ?_⟩, read_is_snapshot cat obs.ops⟩
+  rw [read_is_snapshot]
+  simpa [checkSI] using hc
+
+/-- the checker accepts exactly the observations the MVCC model can produce -/
+theorem checkSI_complete (cat : Catalog) (ops : List Op) :
+    checkSI cat ⟨ops, (run Defects.none cat ops).2⟩ = true := by
+  simp [checkSI, read_is_snapshot]
+
 /-- the same on the abstract machine, where it is immediate: a commit is refused when a write set committed since
     the transaction began shares a row with its own -/
 theorem spec_commit_refused_on_conflict (α : Spec.State) (a : Spec.ATxn) (h : Spec.conflict α.log a = true) :
